@@ -14,7 +14,7 @@ RULE = (
     "happened after at least one member or record was processed; state = (abort member, abort record, method, what was archived)"
 )
 BOUNDS = {
-    "quick": "groups of 1..3 (abort member at every index) x 2 error kinds x 2 raise configurations x files of 2..4 records (every abort position) x 6 methods",
+    "quick": "groups of 1..3 (abort member at every index) x 2 error kinds x 2 raise configurations x files of 2..4 records (every abort position) x 6 methods x 2 follow-up methods",
     "thorough": "groups of 1..4, files of 2..8 records, every (member, record) abort point, 6 methods, 2 kinds x 2 configurations",
 }
 CHUNK = 30
@@ -52,7 +52,8 @@ def cases(tier, seed):
                     for n in sizes:
                         for pos in range(n):
                             for m in groups.METHODS:
-                                yield {"gsize": gsize, "abidx": abidx, "kind": kind, "via": via, "n": n, "pos": pos, "method": m}
+                                for follow in ("same", "cross"):
+                                    yield {"gsize": gsize, "abidx": abidx, "kind": kind, "via": via, "n": n, "pos": pos, "method": m, "follow": follow}
 
 
 def sample(case):
@@ -86,7 +87,7 @@ def run_case(case):
     cp.file_manager.add_named_file(name="d2", path=src2)
     inputs_before = canon.raw_tree(os.path.join(sandbox.root(), "inputs"))
     lines, exc = groups.run_method(cp, method)
-    cstr = f"group={ids} kind={kind} raise-via={via} n={n} abort-record={pos} abort-at-last-record={'yes' if pos == n - 1 else 'no'} method={method}"
+    cstr = f"group={ids} kind={kind} raise-via={via} n={n} abort-record={pos} abort-at-last-record={'yes' if pos == n - 1 else 'no'} method={method} follow-up={case.get('follow', 'same')}"
     viol = []
 
     def bad(what, got, want):
@@ -169,7 +170,11 @@ def run_case(case):
             bad("named-files / named-paths stores changed by the aborted run", "changed", "byte-identical")
         # one further run on the same instance
         aborted_tree = canon.raw_tree(rdir)
-        l2, e2 = groups.run_method(cp, method, fname="d2")
+        m2 = method
+        if case.get("follow") == "cross":
+            # the other schedule family: a serial abort followed by a breadth-first run and vice versa
+            m2 = "collect_by_line" if method in groups.SERIAL else "collect_paths"
+        l2, e2 = groups.run_method(cp, m2, fname="d2")
         if e2 is not None:
             bad("the subsequent run on the same instance raised", f"{type(e2).__name__}: {str(e2)[:100]}", None)
         rd2 = groups.run_dirs()
